@@ -327,8 +327,10 @@ def gen_op(rng, k, sh, kind):
         r = rng.random()
         if r < 0.35:
             return [('save_session', sid, {'user': rng.choice(['ann', 'bob']), 'k': rng.randrange(9)}, ns)]
-        if r < 0.7:
+        if r < 0.6:
             return [('get_session', sid, ns)]
+        if r < 0.75:
+            return [('session_replace', sid, ns, rng.choice([{}, {'k': rng.randrange(9)}, {'user': 'zed'}]))]
         return [('session_set', sid, ns, rng.choice(['user', 'cart', 'k']), rng.choice([1, 'v', [1, 2]]))]
     if kind == 'junk':
         e = rng.choice(sh.eios)
